@@ -10,6 +10,7 @@ use std::collections::BTreeSet;
 
 pub fn client_profile() -> CProfile {
     CProfile {
+        w_stepcoop: 3,
         w_step: 30,
         w_drain: 8,
         w_newcall: 24,
